@@ -158,7 +158,7 @@ func (n *constructorNode) Call(c containerStore) (err error) {
 	// dependencies that consumes its result; anything else is a cycle.
 	root := n.s.rootScope()
 	if n.building && n.buildingSince == root.decoratorsStarted {
-		return newErrInvalidInput("cycle detected in dependency graph", errCycleDetected{
+		return newErrInvalidInput("cycle detected in dependency graph", &errCycleDetected{
 			Path:  []cycleErrPathEntry{{Key: key{t: n.ctype}, Func: n.location}},
 			scope: n.origS,
 		})
